@@ -17,7 +17,7 @@ func Guess(b bytes.Bytes) *GuessData {
 
 func (g *GuessData) Number() (*Number, error) {
 	if g.number == nil {
-		n, err := NewNumber(g.bytes)
+		n, err := ParseNumber(g.bytes)
 		if err != nil {
 			return nil, err
 		}
